@@ -233,6 +233,11 @@ impl Write for TlsSim {
         s.from_server.extend_from_slice(buf);
         Ok(buf.len())
     }
+    /// like a socket: one operation that takes all the slices
+    fn write_vectored(&mut self, bufs: &[io::IoSlice<'_>]) -> io::Result<usize> {
+        let joined: Vec<u8> = bufs.iter().flat_map(|b| b.iter().copied()).collect();
+        self.write(&joined)
+    }
     fn flush(&mut self) -> io::Result<()> {
         Ok(())
     }
